@@ -40,6 +40,10 @@ func (tr *Translator) runBody(ct *Contract, full bool) {
 	tr.safety = full && !ct.NoSafety
 	st := &State{guard: "true", mem: map[string]Sx{}}
 	tr.regKey("$alloc", nil, "Int")
+	// "$world" stands for every heap location this VC never mentions: havocking the whole heap
+	// changes it, so a restricted modifies clause is only provable if no such havoc is reachable
+	// (or is undone by the callee's own "nothingModified()" guarantee).
+	tr.regKey("$world", nil, "Int")
 	st.guard = sx("<", "0", tr.allocTerm(st))
 	var args []Val
 	for _, p := range fn.Params {
@@ -47,6 +51,7 @@ func (tr *Translator) runBody(ct *Contract, full bool) {
 		args = append(args, v)
 		st.guard = and(append([]Sx{st.guard}, tr.typeFacts(st, v)...)...)
 	}
+	tr.assumeGlobalInvs(st)
 	entry := st.clone()
 	tr.topArgs, tr.topEntry = args, entry
 	// known-finding regions (predicates over the inputs at entry)
@@ -88,6 +93,27 @@ func (tr *Translator) runBody(ct *Contract, full bool) {
 		g := tr.specBool(cl, env)
 		c.addObl(&Obligation{Name: fmt.Sprintf("%s#post.%d", ct.Qual, i+1), Kind: "post", Guard: out.guard, Goal: g, Pos: cl.Text, Func: ct.Qual})
 	}
+	// global invariants are re-established when the function wrote something they read
+	if len(tr.writeLog) > 0 {
+		for _, gi := range tr.contracts.GInvs {
+			if gi.Clause.Expr == nil {
+				continue
+			}
+			env := &Env{tr: tr, vars: map[string]Val{}, st: out, old: f.entry}
+			g := tr.specBool(gi.Clause, env)
+			touched := false
+			for _, tok := range tokRe.FindAllString(g+" "+defText(c, g), -1) {
+				for k := range tr.writeLog[0] {
+					if k != "$alloc" && strings.Contains(tok, sym(k)) && (strings.HasPrefix(tok, "H_") || strings.HasPrefix(tok, "Hl") || strings.HasPrefix(tok, "Hc_") || strings.HasPrefix(tok, "Hh_")) {
+						touched = true
+					}
+				}
+			}
+			if touched {
+				c.addObl(&Obligation{Name: ct.Qual + "#ginv." + gi.Name, Kind: "ginv", Guard: out.guard, Goal: g, Pos: gi.Clause.Text, Func: ct.Qual})
+			}
+		}
+	}
 	// frame: keys written but not declared in modifies must leave pre-existing objects unchanged
 	if ct.ModSet {
 		mods := map[string]bool{}
@@ -98,9 +124,6 @@ func (tr *Translator) runBody(ct *Contract, full bool) {
 			w := map[string]bool{}
 			if len(tr.writeLog) > 0 {
 				w = tr.writeLog[0]
-			}
-			if w["*"] {
-				c.addObl(&Obligation{Name: ct.Qual + "#frame:*", Kind: "frame", Guard: out.guard, Goal: "false", Pos: "body havocs the whole heap (unknown callee) but declares a modifies set", Func: ct.Qual})
 			}
 			oldAlloc := tr.allocTerm(f.entry)
 			for _, k := range sortedKeys(w) {
@@ -231,3 +254,50 @@ func verifyContract(l *Loaded, cs *ContractSet, ct *Contract) *FuncResult {
 }
 
 var _ = ssa.NaiveForm
+
+func defText(c *Ctx, name Sx) string {
+	if d, ok := c.declIdx[name]; ok {
+		return d.text
+	}
+	return ""
+}
+
+// assumeGlobalInvs: global invariants hold in state st (attached as axioms owned by the heap
+// symbol they read, so that they only enter queries that look at that part of the heap)
+func (tr *Translator) assumeGlobalInvs(st *State) {
+	c := tr.c
+	for _, gi := range tr.contracts.GInvs {
+		if gi.Clause.Expr == nil {
+			continue
+		}
+		env := &Env{tr: tr, vars: map[string]Val{}, st: st, old: st}
+		e := *env
+		e.info = gi.Clause.Info
+		g := e.expr(gi.Clause.Expr).t
+		owner := ""
+		for _, tok := range tokRe.FindAllString(g, -1) {
+			if _, ok := c.declIdx[tok]; !ok {
+				continue
+			}
+			if strings.Contains(tok, "_F_") || strings.Contains(tok, "_P_") || strings.Contains(tok, "_E_") {
+				owner = tok
+			} else if owner == "" && (strings.HasPrefix(tok, "H0_G_") || strings.Contains(tok, "_G_")) {
+				owner = tok
+			}
+		}
+		if owner == "" {
+			st.guard = and(st.guard, g)
+			continue
+		}
+		key := owner + "|" + gi.Name
+		if tr.ginvDone == nil {
+			tr.ginvDone = map[string]bool{}
+		}
+		if tr.ginvDone[key] {
+			continue
+		}
+		tr.ginvDone[key] = true
+		c.axiom(owner, g)
+		c.note("global invariants of the mlrval singletons (ABSENT, VOID, NULL, TRUE, FALSE ...) are assumed at entry and after calls to unverified code; they are re-checked at exit of every verified function that writes the fields they mention")
+	}
+}
